@@ -152,9 +152,17 @@ def run_property(prop, tier="quick", seed=0, repo=None, write_evidence=True, qui
     for o, kf in known_hits:
         out.write("KNOWN-FINDING: property=%s %s [%s] %s — %s\n" % (prop, o.rule, o.key, o.where, kf.get("what_fails", o.msg)))
     replay_path = None
+    if not violations and write_evidence:
+        # a replay file describes the violation of the run that wrote it: none left behind by a clean run
+        try:
+            os.remove(os.path.join(EVID, "replay", "%s.json" % prop))
+        except OSError:
+            pass
     if violations:
-        os.makedirs(os.path.join(EVID, "replay"), exist_ok=True)
-        replay_path = os.path.join(EVID, "replay", "%s.json" % prop)
+        # (runs on scratch trees — the self-test corpus — keep their replay files apart from those of the checked tree)
+        rdir = os.path.join(EVID, "replay") if write_evidence else os.path.join(os.path.dirname(EVID), ".work", "replay")
+        os.makedirs(rdir, exist_ok=True)
+        replay_path = os.path.join(rdir, "%s.json" % prop)
         with open(replay_path, "w") as fh:
             json.dump({"property": prop, "tier": tier, "tree": os.path.basename(factdir),
                        "violations": [o.to_json() for o in violations]}, fh, indent=1)
